@@ -17,7 +17,7 @@
      fire C NAME NS TYPE ID CHILDNS...   handler_fire_stanza(conn C, <NAME xmlns=NS type=TYPE id=ID><c xmlns=CHILDNS/>…)
      firetimed                       handler_fire_timed(ctx)
      tick N                          advance the virtual clock
-     state C connected|disconnected  conn->state
+     state C connected|connecting|disconnected  conn->state (the model's `connected` = state is CONNECTED)
      neg C 0|1                       conn->stream_negotiation_completed
      reset C USERONLY                handler_reset_timed
      sysdel C                        handler_system_delete_all
@@ -570,8 +570,12 @@ int eng_hnd(FILE *in, FILE *out)
             conns_new();
             fprintf(out, act_misuse ? "= bad" : "= ok");
         } else if (n == 3 && !strcmp(tok[0], "state") && (c = num(tok[1], NC)) >= 0 &&
-                   (!strcmp(tok[2], "connected") || !strcmp(tok[2], "disconnected"))) {
-            hc[c]->conn->state = tok[2][0] == 'c' ? XMPP_STATE_CONNECTED : XMPP_STATE_DISCONNECTED;
+                   (!strcmp(tok[2], "connected") || !strcmp(tok[2], "disconnected") ||
+                    !strcmp(tok[2], "connecting"))) {
+            /* all three values of the state enum: "only while connected" is not "unless disconnected" */
+            hc[c]->conn->state = !strcmp(tok[2], "connected")    ? XMPP_STATE_CONNECTED
+                                 : !strcmp(tok[2], "connecting") ? XMPP_STATE_CONNECTING
+                                                                 : XMPP_STATE_DISCONNECTED;
             fprintf(out, "= ok");
         } else if (n == 3 && !strcmp(tok[0], "neg") && (c = num(tok[1], NC)) >= 0 && num(tok[2], 2) >= 0) {
             hc[c]->conn->stream_negotiation_completed = num(tok[2], 2);
